@@ -147,6 +147,40 @@ def run(ctx, b, broken):
                     for b_ in hs:
                         if a != b_:
                             usable([a, b_], sorted(set(own[a]) | set(own[b_])), "shared-include-guard")
+        # the same path rewritten with different content of the same size and parsed again at once: parse_file must read what is
+        # there now (equal to preprocessing and parsing by hand), whatever it saw before
+        same = os.path.join(tmp, "same.c")
+        variants = ["#include <stdio.h>\nint a1;\n", "#include <ctype.h>\nint b2;\n", "#include <errno.h>\nint c3;\n", "#include <stdio.h>\nint d4;\n"]
+        for body in variants + variants[:2]:
+            with open(same, "w") as f:
+                f.write(body)
+            ctx.evaluations += 1
+            ctx.count("suite:same-path-rewritten")
+            ctx.nontriv(("same-path", body))
+            try:
+                a1 = pycparser.parse_file(same, use_cpp=True, cpp_args=["-std=c99", "-I" + fake])
+                txt = pycparser.preprocess_file(same, cpp_args=["-std=c99", "-I" + fake])
+                a2 = pycparser.c_parser.CParser().parse(txt, same)
+                want = body.split()[-1].rstrip(";")
+                names = [e.name for e in a1.ext if isinstance(e, c_ast.Decl)]
+                if want not in names or repr(a1) != repr(a2):
+                    su.violation(body, f"parse_file of a rewritten file does not show its current content (expected a declaration of {want}; got {names[-3:]})")
+            except Exception as e:
+                su.violation(body, f"parse_file of a rewritten file failed: {type(e).__name__}: {str(e)[:100]}")
+        # the caller's cpp_args list is not changed by the call, and can be reused
+        args = ["-std=c99", "-I" + fake]
+        keep = list(args)
+        for _ in range(3):
+            ctx.evaluations += 1
+            ctx.count("suite:args-list-reused")
+            try:
+                pycparser.parse_file(same, use_cpp=True, cpp_args=args)
+            except Exception as e:
+                su.violation("cpp_args list reused", f"parse_file with a reused cpp_args list failed: {type(e).__name__}: {str(e)[:100]}")
+                break
+            if args != keep:
+                su.violation("cpp_args list reused", f"parse_file changed the caller's cpp_args list to {args}")
+                break
         # typedef names usable after including headers in random subsets / orders
         for _ in range(20 if ctx.tier == "quick" else 300):
             sub = ctx.rng.sample(headers, ctx.rng.randint(1, 6))
